@@ -8,6 +8,15 @@ import (
 	"strings"
 )
 
+// charCode is the number of a character literal: the code of its (first) character,
+// not the first byte of its UTF-8 encoding.
+func charCode(in string) int {
+	for _, r := range in {
+		return int(r)
+	}
+	return 0
+}
+
 func genTempName(in string) string {
 	return "$operator" + in
 }
